@@ -454,6 +454,7 @@ fn fuzz_leg(seed: u64, secs: u64, jobs: &[Job]) -> Result<(Value, Vec<String>), 
     let stats = json!({"seconds": secs, "seed_corpus_files": n, "executions": execs, "last_status_line": last, "artifacts": texts.len()});
     let _ = std::fs::remove_dir_all(&work);
     if execs == 0 {
+        let _ = std::fs::write(format!("{}/fuzz-c08-failed.log", crate::ev::out_dir()), &log);
         return Err(format!("the campaign reported no executions: {}", log.lines().rev().take(4).collect::<Vec<_>>().join(" | ")));
     }
     Ok((stats, texts))
